@@ -38,6 +38,10 @@ def check_model(model, prob, r, tol_rel=1e-6):
     """returns a description of the first incoherence found, or None"""
     attrs = [a for a, _ in prob['dom']]
     total = float(model.total)
+    # float rounding: log Z of parameters of magnitude M carries an absolute error of about eps*M, i.e. a relative error of that size in
+    # every table; the stiff cases (noise 1e-9, forced step) reach M ~ 1e12
+    mags = [float(np.abs(v[np.isfinite(v)]).max()) for v in (np.asarray(model.potentials[c].values) for c in model.cliques) if np.isfinite(v).any()]
+    tol_rel = max(tol_rel, 16 * 2.2e-16 * max(mags + [0.0]))
     tol = tol_rel * max(1.0, total)
     with np.errstate(all='ignore'):
         if hasattr(model, 'marginals'):
@@ -58,9 +62,9 @@ def check_model(model, prob, r, tol_rel=1e-6):
                 return f'answer for {list(t)} (served from {name}) is not finite'
             if v.min() < -1e-9 * max(1.0, total):
                 return f'answer for {list(t)} (served from {name}) has a negative entry {v.min()}'
-            if not close(float(v.sum()), total, 1e-6, 1e-9):
+            if not close(float(v.sum()), total, tol_rel, 1e-9):
                 return f'answer for {list(t)} (served from {name}) sums to {float(v.sum())}, model total {total}'
-    if not np.all(np.isfinite(dv)) or not close(float(dv.sum()), total, 1e-6, 1e-9):
+    if not np.all(np.isfinite(dv)) or not close(float(dv.sum()), total, tol_rel, 1e-9):
         return f'full vector not finite or sums to {float(dv.sum())} (total {total})'
     for t in cached:
         if not np.allclose(cached[t], plain[t], rtol=tol_rel, atol=tol):
@@ -99,9 +103,24 @@ def run(res, drv, tier, seed):
             prob = estgen.gen_problem(r)
             engine = r.choice(['MD', 'MD', 'RDA', 'IG'])
             iters = r.choice([1, 2, 7, 100])
+        stiff = (not directed) and ci % 5 == 0
+        if stiff:
+            # nearly noise-free measurements and one or two iterations: the Armijo search of mirror descent fails all 25 halvings and the
+            # last trial is taken regardless (the "forced" exit of md_exit_pair)
+            prob = estgen.gen_problem(r, nmeas=r.choice([1, 2, 3]))
+            for m in prob['meas']:
+                m['noise'] = r.choice([1e-5, 1e-7, 1e-9])
+            engine, iters = 'MD', r.choice([1, 1, 2])
         total = r.choice([None, float(prob['N']), 37.5])
         canon = dict(estgen.canon_problem(prob), engine=engine, iters=iters, total=total)
         eng = estgen.make_engine(prob['dom'], prob['zeros'], iters=iters)
+        nloss = [0]
+        real_loss = eng._marginal_loss
+
+        def counting_loss(*a, _f=real_loss, **k):
+            nloss[0] += 1
+            return _f(*a, **k)
+        eng._marginal_loss = counting_loss
         try:
             model = estgen.estimate(eng, prob['meas'], total, engine)
         except Exception as e:
@@ -110,6 +129,10 @@ def run(res, drv, tier, seed):
             continue
         res.case(canon, len(model.cliques) >= 2, sample={k: canon[k] for k in ('dom', 'engine', 'iters', 'total', 'zeros')} if ci < 3 else None)
         res.count('engine:' + engine); res.count('iters:%d' % iters)
+        if engine == 'MD' and nloss[0] >= 1 + 25 * iters:
+            res.count('MD: every line search exhausted its 25 halvings (forced exit)')
+        elif engine == 'MD' and nloss[0] >= 26:
+            res.count('MD: at least 25 loss evaluations (a line search may have been exhausted)')
         if not hasattr(model, 'marginals'):
             res.count('early exit (marginals unset)')
         if prob['zeros']:
